@@ -1,6 +1,6 @@
 /* H5 mc_jsgf -- C05: JSGF compilation preserves the language of the grammar.
  * E-ENUM over JSGF programs: every syntax tree up to a node bound over words {a,b}, rules <s> (public),
- * <x>, <y>, sequence, alternatives, grouping, optional, star, plus, references (defined, undefined, self,
+ * <x>, <X> (called y in case descriptors), sequence, alternatives, grouping, optional, star, plus, references (defined, undefined, self,
  * mutual), <NULL>, <VOID>; rendered plain, with weights on every alternative, and decorated with tags,
  * comments and quoted tokens.  Reference: denotational semantics (least fixpoint over sets of strings up to
  * length 4) + a static tail-position analysis deciding what the compiler must refuse.  DESIGN.md H5.
@@ -132,7 +132,8 @@ emit(out_t *o, const char *s)
 static void
 render(out_t *o, const tree_t *t, int prec, int head_of_alt)
 {
-    static const char *leaf[NLEAF] = { "a", "b", "<s>", "<x>", "<y>", "<undef>", "<NULL>", "<VOID>" };
+    /* the third rule is <X>: its name differs from <x> only in case (rule names are case-sensitive) */
+    static const char *leaf[NLEAF] = { "a", "b", "<s>", "<x>", "<X>", "<undef>", "<NULL>", "<VOID>" };
     static const char *wts[4] = { "/2/ ", "/0.5/ ", "/1/ ", "/3/ " };
     if (head_of_alt && o->mode == M_WEIGHT && t->kind != K_ALT && t->kind != K_SEQ)
         emit(o, wts[o->altno++ & 3]);
@@ -177,7 +178,9 @@ render(out_t *o, const tree_t *t, int prec, int head_of_alt)
             emit(o, t->kind == K_A ? "\"a\"" : "b");
             if (prec < 2) /* a tag follows the whole item, so not inside the operand of * or + */
                 emit(o, " {t}");
-        } else
+        } else if (o->mode == M_DECOR && strcmp(leaf[t->kind], "<x>") == 0)
+            emit(o, "<g.x>"); /* fully qualified reference */
+        else
             emit(o, leaf[t->kind]);
     }
 }
@@ -485,7 +488,7 @@ run_case(const gcase_t *c)
         emit(&o, ";");
     }
     if (RULE[2]) {
-        emit(&o, " <y> = ");
+        emit(&o, " <X> = ");
         render_top(&o, RULE[2]);
         emit(&o, ";");
     }
